@@ -267,7 +267,7 @@ def cm3_encode_line(r, prev, cur, prev_last, mode):
     return bytes([contr]) + pk(left_bits) + pk(up_bits) + bytes(lits)
 
 
-def build_cm3(r, pages=None, pattern=None, mode=None, first_row_zero=False, alternate=False):
+def build_cm3(r, pages=None, pattern=None, mode=None, first_row_zero=False, alternate=False, uniform_rows=False):
     pages = pages if pages is not None else r.choice([1, 1, 2])
     pattern = pattern if pattern is not None else (r.randrange(2) == 0)
     mode = mode if mode is not None else r.choice([0, 1, 2, 3])
@@ -284,6 +284,9 @@ def build_cm3(r, pages=None, pattern=None, mode=None, first_row_zero=False, alte
                         px[y * 320 + x:y * 320 + x + 2] = px[(y - 1) * 320 + x:(y - 1) * 320 + x + 2]
     if first_row_zero:     # the first line copies from the initial (all zero) line buffer
         px[0:320] = [0] * 320
+    if uniform_rows:       # a constant line that repeats the last byte of the varied line above it: every byte is a copy of its left
+        for y in (1, 3, 50, 191, rows - 1):     # neighbour, the second mask is empty and the greedy coder writes control byte 0
+            px[y * 320:(y + 1) * 320] = [px[y * 320 - 2], px[y * 320 - 1]] * 160
     by = pack_nib(px)
     pictyp = (0x80 if pages == 2 else 0) | (0 if pattern else 1) | r.choice([0, 2, 0x40])
     data = bytearray([pictyp]) + bytes(pal) + bytes(r.randrange(256) for _ in range(12))
@@ -463,6 +466,9 @@ def extremes(r):
     r_own = _random.Random(20260930)          # a stream of its own: the draws of everything that follows stay what they were
     for w, h in ((320, 200), (320, 193), (640, 100), (640, 192), (320, 400), (322, 192)):
         out.append(build_hrs(r_own, w=w, h=h))
+    # CM3 lines whose control byte is 0 (greedy coding of a constant line after a varied one), one and two pages
+    out.append(build_cm3(r_own, pages=1, pattern=False, mode=1, uniform_rows=True))
+    out.append(build_cm3(r_own, pages=2, pattern=True, mode=1, uniform_rows=True))
     # every format that packs pixels into bytes: an uncompressed picture whose data runs through all 256 byte
     # values (a decoder that treats one value specially - 0x00 as "empty", 0xFF as a marker - shows here)
     global rand_pixels
